@@ -84,7 +84,12 @@ with hcc (x : hres) (c : citem) {struct c} : Z :=
       (fix go (l : list (N * hval)) : Z := match l with [] => 0 | p :: l' => match p with (_, v) => hv x v + go l' end end) caps
   end.
 
-Definition hci (x : hres) (c : citem) : Z := hkind x (ci_kind c) + hcc x c.
+(* internal items ([KSlabRm], [KTerm], [KKill]) are made without captures; whatever captures such an item might carry
+   is ignored by the machine, hence not counted *)
+Definition rkb (k : ckind) : bool :=
+  match k with KPlain _ | KMeth _ _ _ | KPrep _ _ _ => true | _ => false end.
+
+Definition hci (x : hres) (c : citem) : Z := hkind x (ci_kind c) + (if rkb (ci_kind c) then hcc x c else 0).
 
 Fixpoint henv (x : hres) (l : list (N * hval)) : Z :=
   match l with [] => 0 | p :: l' => hv x (snd p) + henv x l' end.
@@ -120,7 +125,7 @@ Lemma hcc_eq x u i kd caps q : hcc x (CI u i kd caps q) = henv x caps.
 Proof. simpl. apply go_henv. Qed.
 Lemma hcc_caps x c : hcc x c = henv x (ci_caps c).
 Proof. destruct c. apply hcc_eq. Qed.
-Lemma hci_eq x u i kd caps q : hci x (CI u i kd caps q) = hkind x kd + henv x caps.
+Lemma hci_eq x u i kd caps q : hci x (CI u i kd caps q) = hkind x kd + (if rkb kd then henv x caps else 0).
 Proof. unfold hci. rewrite hcc_eq. reflexivity. Qed.
 
 Lemma hkind_nn x k : 0 <= hkind x k.
@@ -149,7 +154,7 @@ Proof.
 Qed.
 
 Lemma hci_nn x c : 0 <= hci x c.
-Proof. unfold hci. pose proof (hkind_nn x (ci_kind c)). pose proof (hcc_nn x c). lia. Qed.
+Proof. unfold hci. pose proof (hkind_nn x (ci_kind c)). pose proof (hcc_nn x c). destruct (rkb (ci_kind c)); lia. Qed.
 
 Lemma henv_nn x l : 0 <= henv x l.
 Proof. induction l as [|p l IH]; simpl; [lia|]. pose proof (hv_nn x (snd p)). lia. Qed.
@@ -422,6 +427,8 @@ Lemma hci_unq x c : hci x (ci_unq c) = hci x c.
 Proof. destruct c as [u i kd caps q0]. unfold ci_unq. rewrite !hci_eq. reflexivity. Qed.
 Lemma hci_as_call x a ci arg : hci x (as_call a ci arg) = hind x (HR a) + hcc x ci.
 Proof. destruct ci as [u i kd caps q]. unfold as_call. rewrite hci_eq, hcc_eq. reflexivity. Qed.
+Lemma hci_real x c : rkb (ci_kind c) = true -> hci x c = hkind x (ci_kind c) + hcc x c.
+Proof. unfold hci. intros ->. reflexivity. Qed.
 
 (* slabs *)
 Lemma hslab_list_set_occ x l i c old :
